@@ -14,6 +14,8 @@ CORR = {"title": "C", "id": "0e95725d-7320-415d-80f7-004da920fc11", "name": "cn"
         "correlation": {"type": "event_count", "rules": ["n"], "group-by": ["u"], "timespan": "5m", "condition": {"gte": 10}, "aliases": {"u": {"n": "User"}}, "generate": True}}
 CORR2 = {"title": "C2", "correlation": {"type": "value_count", "rules": ["n", "m"], "timespan": "1h", "condition": {"lt": 3, "field": "x"}}}
 CORR3 = {"title": "C3", "correlation": {"type": "temporal", "rules": ["n", "m"], "timespan": "1d", "condition": "n and not m"}}
+CORR4 = {"title": "C4", "correlation": {"type": "temporal_ordered", "rules": ["n", "m"], "timespan": "1d", "group-by": ["u"]}}          # no condition: the default one is derived from the rules
+CORR5 = {"title": "C5", "correlation": {"type": "temporal", "rules": "n", "timespan": "1d"}}                                          # a single reference given as text
 FILT = {"title": "F", "id": "0e95725d-7320-415d-80f7-004da920fc12", "logsource": {"category": "c"}, "filter": {"rules": ["n"], "sel": {"u|startswith": "adm"}, "condition": "not sel"}}
 def lab(w):
     r = repr(w)
@@ -61,7 +63,8 @@ class C07Bounded(Bounded):
         kfile = os.path.join(VERIF, "known", "c07_known_escapes.json")
         KNOWN = set(json.load(open(kfile))) if os.path.exists(kfile) else set()
         loaders = [("rule", RULE, SigmaRule.from_dict), ("correlation", CORR, SigmaCorrelationRule.from_dict), ("correlation", CORR2, SigmaCorrelationRule.from_dict),
-                   ("correlation", CORR3, SigmaCorrelationRule.from_dict), ("filter", FILT, SigmaFilter.from_dict)]
+                   ("correlation", CORR3, SigmaCorrelationRule.from_dict), ("correlation", CORR4, SigmaCorrelationRule.from_dict), ("correlation", CORR5, SigmaCorrelationRule.from_dict),
+                   ("filter", FILT, SigmaFilter.from_dict)]
         ev = nontriv = 0
         seen, fails, samples, escapes = {}, [], [], []
 
